@@ -91,6 +91,7 @@ def run_history(rec, sc, assemblage=None, fractions=None, F0=None, collect=None)
 def validate_traces(chk, hist, bad, rtol_rhs=1e-9):
     """Trace validation: feed what the oracles produced to the extracted glue model."""
     sc, m, params = hist["sc"], hist["mineral"], hist["params"]
+    MT.validate_problems(chk, hist, bad)     # LSODA's constructor arguments vs Model_minerals.lsoda_problem_of
     lines, meta = [], []
     for u in hist["updates"]:
         tr = u["trace"]
